@@ -4,6 +4,7 @@ import (
 	"bytes"
 	"fmt"
 	"math/big"
+	"reflect"
 	"runtime/debug"
 	"strings"
 
@@ -355,7 +356,8 @@ func (cf *confEnv) multiSiteMutants(sp *spend, n int) {
 	if err != nil {
 		return
 	}
-	nsites := len(sitesOf(base))
+	bs := sitesOf(base)
+	nsites := len(bs)
 	for i := 0; i < n; i++ {
 		cp, err := decodeUtx(sp.Wire)
 		if err != nil {
@@ -386,8 +388,8 @@ func (cf *confEnv) multiSiteMutants(sp *spend, n int) {
 				}()
 				ok = applyOp(r, cs[si], op)
 			}()
-			if !ok {
-				continue
+			if !ok || reflect.DeepEqual(cs[si].Val.Interface(), bs[si].Val.Interface()) {
+				continue // not applicable, or it changed nothing (e.g. swapping two equal elements)
 			}
 			class := classOf(cs[si].Path)
 			if !deadField(class, op, sp.Ain, sp.Ring1) {
